@@ -994,6 +994,10 @@ def vert_pages(st):
                                     "Ascent": 750, "Descent": -250, "ItalicAngle": 0, "CapHeight": 700, "StemV": 80}})
     f0 = d.add({"Type": G.N("Font"), "Subtype": G.N("Type0"), "BaseFont": G.N("VerifV"), "Encoding": G.N("Identity-V"),
                 "DescendantFonts": [cid]})
+    # a horizontal Type0 font over the SAME descendant CIDFont object, listed before the vertical one on some pages: the
+    # writing mode belongs to the Type0 font's /Encoding, not to the descendant both share
+    fh = d.add({"Type": G.N("Font"), "Subtype": G.N("Type0"), "BaseFont": G.N("VerifV"), "Encoding": G.N("Identity-H"),
+                "DescendantFonts": [cid]})
     pages, progs = [], []
     for cm in (None, CM[2]):
         for tc in (0, -2):
@@ -1001,7 +1005,7 @@ def vert_pages(st):
                 for s2 in V_SHOWS:
                     evs = ((cm,) if cm else ()) + (("BT",), ("Tf", "/V1", 10), ("TL", 12), ("Td", 40, 300), ("Tc", tc), s1, s2, ("ET",))
                     progs.append(evs)
-                    pages.append((gfx.program(evs), {"Font": {"V1": f0}}))
+                    pages.append((gfx.program(evs), {"Font": {"H1": fh, "V1": f0} if cm is None else {"V1": f0}}))
     data = gfx.pages_doc(pages, doc=d)
     out = gfx.run_pages(data)
     st.traces += 1
